@@ -52,7 +52,8 @@ def ignore_private(elem):
     return False
 
 def ignore_pixel_data(elem):
-    return elem.tag == pydicom.tag.Tag(0x7fe0, 0x10)
+    #PixelData, FloatPixelData, and DoubleFloatPixelData
+    return elem.tag.group == 0x7fe0 and elem.tag.elem in (0x10, 0x8, 0x9)
 
 def ignore_overlay_data(elem):
     return elem.tag.group & 0xff00 == 0x6000 and elem.tag.elem == 0x3000
@@ -329,6 +330,10 @@ default_conversions = {'DS' : float,
                        'OB' : get_text,
                        'OW or OB' : get_text,
                        'OB or OW' : get_text,
+                       'OF' : get_text,
+                       'OD' : get_text,
+                       'OL' : get_text,
+                       'OV' : get_text,
                        'UN' : get_text,
                        'PN' : unicode_str,
                        'UI' : unicode_str,
